@@ -1,5 +1,6 @@
 import CoreBGP.Model.Packet
 import CoreBGP.Spec.Wire
+import CoreBGP.Lemmas.Packet
 /-!
 # C15 — OPEN / NOTIFICATION / capability codecs round-trip and are strict
 
@@ -9,14 +10,13 @@ Property theorems only (helper lemmas live in `CoreBGP.Lemmas`). Model = transcr
 namespace CoreBGP.Props.C15
 open CoreBGP CoreBGP.Model
 
+/-! ## NOTIFICATION -/
+
 /-- decoding a NOTIFICATION body is the inverse of encoding it, for every code, subcode and
 data of any length -/
 theorem notif_rt (n : Notif) : decodeNotif (encodeNotifBody n) = .ok n := by
   cases n with
-  | mk c s d =>
-    cases d with
-    | nil => simp [encodeNotifBody, decodeNotif]
-    | cons x xs => simp [encodeNotifBody, decodeNotif]
+  | mk c s d => cases d <;> simp [encodeNotifBody, decodeNotif]
 
 /-- every byte string the NOTIFICATION decoder accepts re-encodes to itself -/
 theorem notif_tr (b : Bytes) (n : Notif) (h : decodeNotif b = .ok n) : encodeNotifBody n = b := by
@@ -39,11 +39,83 @@ theorem notif_body_spec (n : Notif) : encodeNotifBody n = Spec.notifBody n := by
   cases n with
   | mk c s d => cases d <;> simp [encodeNotifBody, Spec.notifBody]
 
+/-- a NOTIFICATION reaches the wire as marker, true length, type 3, code, subcode, data — for
+every data length that fits a message (0..4075) -/
+theorem notif_wire (n : Notif) (h : n.data.length ≤ 4075) :
+    encodeNotif n = Spec.frame 3 (Spec.notifBody n) := by
+  sorry
+
+example : decodeNotif (encodeNotifBody ⟨5, 3, [1]⟩) = .ok ⟨5, 3, [1]⟩ := by decide
+
+/-! ## OPEN -/
+
+/-- the OPEN decoder accepts exactly the byte strings the RFC grammar accepts, with exactly the
+RFC's reading of them -/
+theorem open_decode_iff (b : Bytes) (o : OpenMsg) :
+    decodeOpen b = .ok o ↔ Spec.parseOpen b = some o := by
+  sorry
+
+/-- the OPEN decoder never indexes out of bounds, for byte strings of every length (the 8-bit
+`paramLen+2` / `capLen+2` cannot wrap inside an OPEN because Opt Parm Len bounds the block) -/
+theorem open_decode_no_panic (b : Bytes) : decodeOpen b ≠ .panic := by
+  sorry
+
+/-- a refused OPEN is refused with a `notificationError` that is to be sent and that names a
+structural fault actually present in the body -/
+theorem open_decode_err (b : Bytes) (e : PErr) (h : decodeOpen b = .err e) :
+    ∃ n, e = .notif n true ∧ (n.code.toNat, n.sub.toNat) ∈ Spec.openStructFaults b := by
+  sorry
+
+/-- spec-level round trip: the wire form of a representable OPEN parses back to it -/
+theorem open_spec_rt (o : OpenMsg) (h : Spec.Representable o) : Spec.parseOpen (Spec.openBody o) = some o := by
+  sorry
+
+/-- spec-level strictness: whatever parses is representable and re-encodes to the same bytes -/
+theorem open_spec_tr (b : Bytes) (o : OpenMsg) (h : Spec.parseOpen b = some o) :
+    Spec.Representable o ∧ Spec.openBody o = b := by
+  sorry
+
+/-- the encoder produces the RFC wire form for every representable OPEN -/
+theorem open_encode (o : OpenMsg) (h : Spec.Representable o) :
+    encodeOpenBody o = some (Spec.openBody o) := by
+  sorry
+
+/-- decode ∘ encode = id on representable OPENs -/
+theorem open_rt (o : OpenMsg) (h : Spec.Representable o) :
+    ∃ b, encodeOpenBody o = some b ∧ decodeOpen b = .ok o := by
+  exact ⟨_, open_encode o h, (open_decode_iff _ _).2 (open_spec_rt o h)⟩
+
+/-- accepted byte strings re-encode to themselves; in particular acceptance implies that the
+fixed fields are present and every nested length octet agrees with the bytes that follow -/
+theorem open_tr (b : Bytes) (o : OpenMsg) (h : decodeOpen b = .ok o) :
+    encodeOpenBody o = some b := by
+  have hs := (open_decode_iff b o).1 h
+  have ⟨hr, hb⟩ := open_spec_tr b o hs
+  rw [← hb]; exact open_encode o hr
+
+example : Spec.Representable ⟨4, 65001, 90, 1, [[⟨65, [0, 0, 253, 233]⟩, ⟨1, [0, 1, 0, 1]⟩], [⟨2, []⟩]]⟩ := by decide
+
+/-! ## capability helpers -/
+
+/-- `DecodeAddPathTuples` accepts exactly non-empty sequences of AFI(2) SAFI(1) Send/Receive ∈
+{1,2,3} and reads them as RFC 7911 says -/
+theorem addpath_decode_iff (b : Bytes) (ts : List AddPathTuple) :
+    decodeAddPathTuples b = .ok ts ↔ Spec.parseAddPathCap b = some ts := by
+  sorry
+
+/-- add-path tuples round-trip for send/receive values 1–3 -/
+theorem addpath_rt (ts : List AddPathTuple) (hne : ts ≠ []) (hv : ∀ t ∈ ts, t.tx = true ∨ t.rx = true) :
+    decodeAddPathTuples (newAddPathCapability ts).value = .ok ts := by
+  sorry
+
+/-- the add-path capability is code 69 with the RFC 7911 tuple encoding -/
+theorem addpath_encode (ts : List AddPathTuple) (ws : List Bytes) (h : ts.mapM Spec.addPathWire = some ws) :
+    newAddPathCapability ts = ⟨69, ws.flatten⟩ := by
+  sorry
+
 /-- the multiprotocol capability is AFI(2) reserved(1)=0 SAFI(1), code 1 -/
 theorem mp_cap (afi : UInt16) (safi : UInt8) :
     newMPExtensionsCapability afi safi = ⟨1, Spec.mpCapWire afi safi⟩ := by
   simp [newMPExtensionsCapability, Spec.mpCapWire, Gen.CAP_MP_EXTENSIONS, be16Bytes, Spec.u16]
-
-example : decodeNotif (encodeNotifBody ⟨5, 3, [1]⟩) = .ok ⟨5, 3, [1]⟩ := by decide
 
 end CoreBGP.Props.C15
